@@ -462,7 +462,29 @@ class CProgram:
         f = self.funcs.get(name)
         if f is None:
             raise AnalysisError('anchor vanished: C function %s' % name)
+        why = unsupported_pointer_use(f)
+        if why:
+            raise AnalysisError('C function %s is outside the modelled C subset: %s' % (name, why))
         return f
+
+
+def unsupported_pointer_use(f):
+    """arrays carved out of another allocation by pointer arithmetic (double *b = ws + L), or pointers that are advanced (p++, p += n):
+    the array model of the C rules (one malloc per array, index expressions) does not cover them"""
+    ptrs = {pn for pt, pn in f.params if '*' in pt}
+    for st in f.walk():
+        if isinstance(st, CDecl) and st.pointer:
+            ptrs.add(st.name)
+    for st in f.walk():
+        init = st.init if isinstance(st, CDecl) and st.pointer else (st.value if isinstance(st, CAssign) and isinstance(st.target, ast.Name) and st.target.id in ptrs and st.op == '=' else None)
+        if isinstance(init, ast.AST):
+            if isinstance(init, ast.BinOp) and any(isinstance(n, ast.Name) and n.id in ptrs for n in ast.walk(init)):
+                return 'pointer %s is set to an offset into another array (line %d)' % (st.name if isinstance(st, CDecl) else st.target.id, st.line)
+        if isinstance(st, CAssign) and isinstance(st.target, ast.Name) and st.target.id in ptrs and st.op in ('+=', '-='):
+            return 'pointer %s is advanced (line %d)' % (st.target.id, st.line)
+        if isinstance(st, CFor) and isinstance(st.step, CAssign) and isinstance(st.step.target, ast.Name) and st.step.target.id in ptrs:
+            return 'pointer %s is advanced (line %d)' % (st.step.target.id, st.line)
+    return None
 
 
 # ---- alpha-normalisation of C locals (see sa/alpha.py for the argument: any bijective renaming of locals is behaviour-preserving)
